@@ -28,7 +28,7 @@ use c07::generate::Gen;
 use c07::mutate::{KINDS, mutate};
 use roto::verif_hooks::c06::report_stage;
 use roto::verif_hooks::c07::{typecheck_only, unify_script};
-use roto::{FileTree, NoCtx, Runtime};
+use roto::{Context, FileTree, NoCtx, Runtime};
 use rotov_harness::driver::Driver;
 use rotov_harness::worker::{Ended, run_worker_keep_stdout};
 use rotov_harness::{Prng, Report};
@@ -500,6 +500,103 @@ fn match_case(rt: &Runtime<NoCtx>, drv: &mut Driver, seed: u64, index: u64, rep:
     rep.hist("match-table", real_cat);
 }
 
+// ------------------------------------------------------------ assignment targets
+
+/// the context of the scripts of the assignment-target table
+#[derive(Clone, Context)]
+struct C07Ctx {
+    pub cx: u64,
+}
+
+/// "Any local variable can be overwritten with an assignment" — and nothing
+/// else: every kind of thing a path can name, as the target of `=` and `+=`.
+/// (what, kind for the model or `-` if it is not a value at all, script)
+fn assign_targets() -> Vec<(&'static str, &'static str, String)> {
+    let mut out = Vec::new();
+    for (op, tag) in [("=", "assign"), ("+=", "cassign")] {
+        let t = |what: &'static str, kind: &'static str, pre: &str, params: &str, body: &str| {
+            (what, kind, format!("{pre}fn main({params}) {{ {body} }}\n").replace("OP", op))
+        };
+        let _ = tag;
+        out.push(t("let-variable", "local", "", "", "let x = 1u64; x OP 2u64;"));
+        out.push(t("parameter", "local", "", "x: u64", "x OP 2u64;"));
+        out.push(t("for-variable", "local", "", "", "for x in [1u64] { x OP 2u64; };"));
+        out.push(t("match-binder", "local", "", "o: Option[u64]", "match o { Some(x) => { x OP 2u64; } None => { } };"));
+        out.push(t("field-of-parameter", "local", "record R { a: u64 }\n", "r: R", "r.a OP 2u64;"));
+        out.push(t("field-of-field", "local", "record R { a: u64 }\nrecord S { r: R }\n", "s: S", "s.r.a OP 2u64;"));
+        out.push(t("outer-variable-from-block", "local", "", "", "let x = 1u64; if true { x OP 2u64; };"));
+        out.push(t("constant", "constant", "const K: u64 = 1;\n", "", "K OP 2u64;"));
+        out.push(t("constant-in-nested-block", "constant", "const K: u64 = 1;\n", "", "while false { if true { K OP 2u64; }; };"));
+        out.push(t("field-of-constant", "constant", "record R { a: u64 }\nconst K: R = R { a: 1 };\n", "", "K.a OP 2u64;"));
+        out.push(t("context-variable", "context", "", "", "cx OP 2u64;"));
+        out.push(t("context-variable-in-match-arm", "context", "", "o: Option[u64]", "match o { Some(x) => { cx OP x; } None => { } };"));
+        out.push(t("function-name", "-", "fn f() { }\n", "", "f OP 2u64;"));
+        out.push(t("enum-constructor", "-", "", "", "Option.None OP 2u64;"));
+    }
+    out
+}
+
+fn assign_case(drv: &mut Driver, index: u64, rep: &mut Report) {
+    let table = assign_targets();
+    let Some((what, kind, src)) = table.get(index as usize) else { return };
+    let compound = index as usize >= table.len() / 2;
+    let rt = Runtime::new().with_context_type::<C07Ctx>().expect("context type");
+    let real = match catch_unwind(AssertUnwindSafe(|| {
+        FileTree::test_file("c07.roto", src, 0)
+            .compile(&rt)
+            .map(|_| ())
+            .map_err(|rep| (report_stage(&rep).to_string(), first_line(&rep)))
+    })) {
+        Ok(Ok(())) => Outcome::Ok,
+        Ok(Err((stage, line))) if stage == "typechecker" => Outcome::TypeError(line),
+        Ok(Err((stage, line))) => Outcome::Other(stage, line),
+        Err(e) => Outcome::Panic(panic_text(e)),
+    };
+    rep.evaluations += 1;
+    let input = json!({"assign-target": what, "compound": compound, "src": src});
+    // the model (TcRules.assignAccepts, parameterised by the regenerated facts)
+    let model_ok = if *kind == "-" {
+        false
+    } else {
+        drv.ask(&format!("c07 assign {} {kind}", compound as u8)) == "ok"
+    };
+    let doc_ok = *kind == "local";
+    match &real {
+        Outcome::Ok | Outcome::TypeError(_) => {}
+        Outcome::Panic(msg) if !doc_ok => {
+            rep.violation(
+                &format!("assignment to something that is not a local variable made the compiler panic: {msg}"),
+                &format!("panic:assign-target:{what}"),
+                input,
+            );
+            return;
+        }
+        other => {
+            rep.mismatch(&format!("assignment-target script did not reach a verdict: {other:?}"), input);
+            return;
+        }
+    }
+    let real_ok = real == Outcome::Ok;
+    if real_ok != model_ok {
+        rep.mismatch(
+            &format!("TcRules.assignAccepts says {}, the compiler {}", if model_ok { "accept" } else { "reject" }, if real_ok { "accepts" } else { "rejects" }),
+            input.clone(),
+        );
+    }
+    if real_ok && !doc_ok {
+        rep.violation(
+            "assignment to something that is not a local variable compiled",
+            &format!("accepted:assign-target:{what}"),
+            input.clone(),
+        );
+    }
+    if !real_ok && doc_ok {
+        rep.mismatch("assignment to a local variable is rejected", input);
+    }
+    rep.class(format!("assign:{what}:{}:{}", compound, if real_ok { "accepted" } else { "rejected" }));
+    rep.hist("assignment-targets", if real_ok { "accepted" } else { "rejected" });
+}
+
 // ------------------------------------------------------------ literal variables
 
 /// Variables bound to unsuffixed literals: the manual leaves their type to
@@ -773,6 +870,7 @@ fn worker(args: &[String]) {
             "match" => match_case(&rt, &mut drv, seed, i, &mut rep),
             "unify" => unify_case(&mut drv, seed, i, &mut rep),
             "lit" => lit_case(&rt, &mut drv, seed, i, &mut rep),
+            "assign" => assign_case(&mut drv, i, &mut rep),
             _ => {}
         }
     }
@@ -906,6 +1004,7 @@ fn main() {
             let jobs = env_n("C07_JOBS", 4);
             let mut rep = Report::default();
             run_phase("ops", seed, ops_total(), 700, jobs, &mut rep);
+            run_phase("assign", seed, assign_targets().len() as u64, 64, 1, &mut rep);
             run_phase("match", seed, matches, 500, jobs, &mut rep);
             run_phase("unify", seed, unifies, 2000, jobs, &mut rep);
             run_phase("lit", seed, lits, 1000, jobs, &mut rep);
